@@ -1367,7 +1367,7 @@ class C12(Prop):
         D = 12 if T_ else 9
         for spec in TINY:
             for pre in prefixes(spec, 3):
-                jobs.append(("exhaustive", spec, (pre, D, D, 1800 if T_ else 220)))
+                jobs.append(("exhaustive", spec, (pre, D, D, 1300 if T_ else 220)))
         # <= k deviations from the priority schedule
         k = 3 if T_ else 2
         specs = [t for i, t in enumerate(TARGETED) if i not in STAY_ONLY] if T_ else [TARGETED[i] for i in QUICK_TARGETED]
@@ -1376,8 +1376,8 @@ class C12(Prop):
         for spec in specs:
             with pinned():
                 base = run_spec(spec, script=[])
-            cap = 480 if T_ else 300
-            nfirst = 48 if T_ else 36
+            cap = 360 if T_ else 300
+            nfirst = 40 if T_ else 36
             firsts = [(j, alt) for j in range(len(base.choices)) for alt in range(1, base.ncands[j])]
             if len(firsts) > nfirst:
                 self.sampled.append(f"{prog_str(spec)}: {nfirst} of {len(firsts)} first-deviation positions (sampled)")
